@@ -69,6 +69,14 @@ func (b *BlueprintGenericSparseR1C[E]) Solve(s Solver[E], inst Instruction) erro
 		den = s.Add(den, u1)
 		den, ok = s.Inverse(den)
 		if !ok {
+			// the multiplier of the wire to solve is zero: the constraint holds for any
+			// value iff the remaining terms vanish (e.g. DivUnchecked(0, 0), documented as
+			// unconstrained). As the R1CS solver does, pick 0 in that case.
+			if rest := s.Add(s.Add(s.GetValue(c.QR, c.XB), s.GetValue(c.QO, c.XC)), s.GetCoeff(c.QC)); rest.IsZero() {
+				var zero E
+				s.SetValue(c.XA, zero)
+				return nil
+			}
 			return errDivideByZero
 		}
 		v1 := s.GetValue(c.QR, c.XB)
@@ -84,6 +92,12 @@ func (b *BlueprintGenericSparseR1C[E]) Solve(s Solver[E], inst Instruction) erro
 		den = s.Add(den, u2)
 		den, ok = s.Inverse(den)
 		if !ok {
+			// see above
+			if rest := s.Add(s.Add(s.GetValue(c.QL, c.XA), s.GetValue(c.QO, c.XC)), s.GetCoeff(c.QC)); rest.IsZero() {
+				var zero E
+				s.SetValue(c.XB, zero)
+				return nil
+			}
 			return errDivideByZero
 		}
 
